@@ -1,1 +1,29 @@
-From PC Require Import Model.Marker.
+(* C11 — Python ranges and python_version markers convert into each other exactly.
+   Model: Model/PyRange.v (the variable/operator choice of create_nested_marker for one range or version with
+   final bounds).  Proved: the choice is exact for every interpreter X.Y.Z under the reference reading of the two
+   variables; the single-version branch is refuted for precision < 3 (finding D14) and proved for precision 3.
+   The backward direction (marker -> range) goes through the simplifier (level 2) and is judged by the oracle. *)
+From Coq Require Import List Bool NArith String.
+From PC Require Import Base.Cmp Model.Pep440 Spec.Pep440Spec Model.PyRange Proofs.PyRangeProofs.
+Import ListNotations.
+Open Scope N_scope.
+
+Theorem C11_forward_ref : forall lo hi imin imax a b c,
+  forallb (fun l => eval_pleaf l [a; b; c]) (nested_range lo hi imin imax) = in_range lo hi imin imax [a; b; c].
+Proof. exact nested_range_exact. Qed.
+Print Assumptions C11_forward_ref.
+Theorem C11_single_version_refuted :
+  exists v a b c, eval_pleaf (single_leaf v) [a; b; c] <> is_eq (cmp_rel_pad [a; b; c] v).
+Proof. exact single_version_refuted. Qed.
+Print Assumptions C11_single_version_refuted.
+Theorem C11_single_version_partial : forall v a b c, (3 <= List.length v)%nat ->
+  eval_pleaf (single_leaf v) [a; b; c] = is_eq (cmp_rel_pad [a; b; c] v).
+Proof. exact single_version_exact_precision3. Qed.
+Print Assumptions C11_single_version_partial.
+
+Example C11_example :
+  nested_str (nested_range (Some [3; 6]) (Some [4]) true false) = "python_version >= ""3.6"" and python_version < ""4"""%string /\
+  nested_str (nested_range (Some [3; 6]) (Some [3; 9]) false true) =
+    "python_full_version > ""3.6.0"" and python_full_version <= ""3.9.0"""%string /\
+  nested_str (nested_range (Some [3; 6; 1]) None true false) = "python_full_version >= ""3.6.1"""%string.
+Proof. repeat split; vm_compute; reflexivity. Qed.
